@@ -5,9 +5,13 @@
 package c09
 
 import (
+	"io"
+	"log"
+
 	"context"
 	"encoding/json"
 	"fmt"
+	"verif/props/c15"
 
 	"github.com/Comcast/sheens/core"
 	"github.com/Comcast/sheens/match"
@@ -72,9 +76,14 @@ func run(rec *fw.Rec, replay interface{}, spec *core.Spec, start *core.State, ms
 }
 
 func Run(cfg fw.Config, rec *fw.Rec) {
-	rec.Rule = "random specs (ECMAScript actions that store integers, fractions, nested arrays/objects, nulls, inequality bounds, or fail; later bindings/message patterns that look inside those values, re-use variables against stored structures, branch on lastBindings/lastNode at a user-defined error node) x histories of 1-6 messages; twin A keeps *State in memory, twin B JSON-round-trips it at a set of message boundaries: every subset for histories of <= 4 messages, every single boundary and all boundaries beyond; per-message traces (nodes, bindings, emissions, stop reason) must be identical; non-trivial = history in which some action ran and at least 2 messages were consumed; distinct by canonical (spec,state,messages)"
-	rec.Required = []string{"twins_compared", "all_subsets_enumerated", "error_node_with_diagnostics_reloaded", "int_in_array_stored", "inspecting_pattern_present", "action_failed_in_history", "machines_starting_without_bindings"}
+	rec.Rule = "random specs (ECMAScript actions that store integers, fractions, nested arrays/objects, nulls, inequality bounds, or fail; later bindings/message patterns that look inside those values, re-use variables against stored structures, branch on lastBindings/lastNode at a user-defined error node) x histories of 1-6 messages; twin A keeps *State in memory, twin B JSON-round-trips it at a set of message boundaries: every subset for histories of <= 4 messages, every single boundary and all boundaries beyond; per-message traces (nodes, bindings, emissions, stop reason) must be identical; host level: crews wired like sio/siostd (real Stdio coupling, state file) run a prefix of a history, are stopped and started twice without a message in between, then run the suffix: the state file must survive the idle lifetimes and the crew must end like the uninterrupted one; non-trivial = history in which some action ran and at least 2 messages were consumed; distinct by canonical (spec,state,messages)"
+	rec.Required = []string{"twins_compared", "all_subsets_enumerated", "error_node_with_diagnostics_reloaded", "int_in_array_stored", "inspecting_pattern_present", "action_failed_in_history", "machines_starting_without_bindings", "stdio_idle_lifetimes_keep_the_state"}
 	rec.Assume = []string{"specifications are deterministic (guarded branches have at most one candidate)", "values returned by actions are JSON-representable"}
+	// the hosts' own persistence: a crew wired like sio/siostd (real Stdio coupling and state
+	// file) stopped and started at a message boundary, twice more without a message in
+	// between, must carry on as if uninterrupted
+	log.SetOutput(io.Discard)
+	fw.Parallel(8, cfg.Pick(16, 200), func(w, i int) { c15.PersistReload(cfg, rec, i, "C09") })
 	n := cfg.Pick(4000, 80000)
 	fw.Parallel(cfg.Workers, n, func(w, i int) {
 		r := cfg.Rng("c09", i)
@@ -111,7 +120,7 @@ func Run(cfg fw.Config, rec *fw.Rec) {
 		nm := 1 + r.Intn(6)
 		var msgs []interface{}
 		for k := 0; k < nm; k++ {
-			msgs = append(msgs, gen.GenMessage(r, u.Next("m"), names))
+			msgs = append(msgs, gen.GenAnyMessage(r, u.Next("m"), names))
 		}
 		replay := map[string]interface{}{"spec": a, "state": bs, "messages": msgs}
 		// a tenth of the machines start without bindings ("bs": null), as a host that hands
